@@ -145,7 +145,12 @@ func checkC01(c *Check) {
 	if r == nil {
 		return
 	}
-	rs, probs := runSuite(r, coreSuite(), []modelOpts{{Ast: true}})
+	specs := coreSuite()
+	if c.Tier == "thorough" {
+		specs = append(specs, thoroughSpecs(c.Seed, 400)...)
+		c.extraCov["thorough_models"] = "all two-level operator compositions over opaque children + 400 seeded random well-formed expressions of depth ≤ 3"
+	}
+	rs, probs := runSuite(r, specs, []modelOpts{{Ast: true}})
 	for _, p := range probs {
 		c.Und("R-anchor", "tree.(*Tree).Compile/emission region", "", p)
 	}
